@@ -31,4 +31,24 @@ Definition check_C01 (kind : string) (input output : J) : verdict :=
         end
     | _, _ => malformed
     end
+  else if String.eqb kind "branchpair" then
+    (* in = [src, prefix, a, b, partitions]; out = [[base, B, A] sequential, [base, B, A] parallel]:
+       the three handles are built first in one pipeline, then collected in both modes *)
+    match dec_branch input, output with
+    | Some (s, pre, a, b, MPar n), JL [jseq; jpar] =>
+        match dec_triple jseq, dec_triple jpar with
+        | Some (s0, sb, sa), Some (p0, pb, pa) =>
+            let one (steps : list step) (oseq opar : obs) : bool * bool :=
+              (agree_model MSeq s steps oseq && agree_model (MPar n) s steps opar,
+               not_hang oseq && not_hang opar &&
+               (partition_dependent (steps_size steps) steps
+                || obs_agree (cmp_of steps) oseq opar)) in
+            let '(a0, q0) := one pre s0 p0 in
+            let '(a1, q1) := one (pre ++ b) sb pb in
+            let '(a2, q2) := one (pre ++ a) sa pa in
+            ok_verdict (a0 && a1 && a2) (q0 && q1 && q2)
+        | _, _ => malformed
+        end
+    | _, _ => malformed
+    end
   else malformed.
